@@ -14,7 +14,7 @@
      t:a:b:cnt:doff:soff     h[a].copyTo(h[b], cnt, doff, soff)
      a:d:s   r:d   z:a   H:k
    Observation per op: OK | B<hex, ?? = never written> | N<n,n,n> | ERR ; a crash ends the line: CRASH <kind>.
-   The model's variant is chosen by C02_CFG (six 0/1 flags in the order of Model.cfg; default 111111 = fixed). *)
+   The model's variant is chosen by C02_CFG (seven 0/1 flags in the order of Model.cfg; default 1111111 = fixed). *)
 let ten = z_of_int 10
 let z_of_dec (s : string) : z =
   let neg = String.length s > 0 && s.[0] = '-' in
@@ -26,9 +26,9 @@ let z_of_dec (s : string) : z =
 
 let cfg_of_env () : cfg =
   match Sys.getenv_opt "C02_CFG" with
-  | Some s when String.length s = 6 ->
+  | Some s when String.length s = 7 ->
     let b i = s.[i] = '1' in
-    { fx_other = b 0; fx_negoff = b 1; fx_this = b 2; fx_null = b 3; fx_src = b 4; fx_move = b 5 }
+    { fx_other = b 0; fx_negoff = b 1; fx_this = b 2; fx_null = b 3; fx_src = b 4; fx_move = b 5; fx_ovf = b 6 }
   | _ -> fixed
 
 let parse_op (tok : string) : op =
